@@ -21,7 +21,7 @@ RULE = ('Hypothesis-drawn (script with 1-16 asserts, spec accepting the original
         'W_i has an accepting V that ended before the write began; there is an A with '
         'candidate W_i and base W_(i-1) (the original for i = 1); the file at exit '
         'tokenises to W_n; every V candidate was executed by the command (its log).  '
-        'In half of the runs the output file is read at every traced line of every write: it must hold the previous or the new element of the chain, nothing else.  '
+        'In one run in six one write of the output file fails with OSError: no later element may be written.  In half of the runs the output file is read at every traced line of every write: it must hold the previous or the new element of the chain, nothing else.  '
         'Non-trivial: a run with >= 2 writes and >= 1 success that was computed but '
         'not adopted; distinct = distinct case.')
 ASSUMPTIONS = [
@@ -104,13 +104,19 @@ def cases(draw):
         formats=('default', ), with_cc=False, with_delay=True, comparisons=False,
         max_asserts=16 if many else 6, kinds=['hash', 'hash', 'mixed', 'monotone'], mixed_inputs=not many))
     c['delay'] = [draw(st.integers(0, 10**6)), draw(st.sampled_from([[0, 1, 5, 20], [0, 0, 3, 12], [0, 2]]))]
+    if draw(st.integers(0, 5)) == 0:
+        # one write of the output file fails (OSError): the file keeps the previous element, and a
+        # run that went on would leave a gap in the chain
+        c['fail_write'] = draw(st.integers(1, 3))
+        c['opts']['jobs'] = draw(st.sampled_from([1, 1, 2]))
     return c
 
 
 def run_case(case, acc, wd):
     r = e2e.run_ddsmt(wd, case['text'], case['spec'], case['opts'], mode='launcher',
                       plan=dict(trace=True, delay=case.get('delay'), stop_on_repeat=True, max_accepts=400,
-                                observe_file=zlib.crc32(case['text'].encode('utf-8', 'replace')) % 2 == 0),
+                                observe_file=zlib.crc32(case['text'].encode('utf-8', 'replace')) % 2 == 0,
+                                fail_write=case.get('fail_write')),
                       wall_limit=120)
     if r.timed_out or r.after is None:
         acc.skip('run-wall-limit-or-crash')
@@ -123,6 +129,18 @@ def run_case(case, acc, wd):
         acc.count('stopped-at-repeated-content(see C03)')
     elif r.after.get('rc') != 0:
         acc.count('run-failed(see C04)')
+    if r.after.get('write_failed'):
+        k = r.after['write_failed']
+        wb = [e for e in r.trace if e['e'] == 'Wb']
+        if len(wb) > k:
+            acc.violation('write-failed-but-run-went-on',
+                          f'write #{k} of the output file failed (OSError), yet {len(wb) - k} later elements were written: the file '
+                          f'never held element #{k} of the chain', case)
+        want = wb[k - 2]['cand'] if k >= 2 else None
+        have = None if r.out_text is None else vspec.full_digest_of_text(r.out_text)
+        if len(wb) == k and have != want:
+            acc.violation('final-file-not-last', f'after the failed write #{k} the file holds {have}, the last element written is {want}', case)
+        return False, ['failed-write', f'strategy-{case["opts"]["strategy"]}'], r
     for t in (r.after.get('torn') or [])[:3]:
         # between two elements of the chain the file held something that is neither
         acc.violation('file-content-not-in-chain',
